@@ -100,6 +100,8 @@ enum Fault {
     Widen(usize),
     /// an entry for a signal the test does not know (signal s with one more bit) is appended, value 7
     AddW(usize),
+    /// from this call on the driver's own signal table has entries i and j exchanged IN PLACE (same addresses, other signals)
+    SwapSig(usize, usize),
 }
 
 #[derive(Clone, Debug, Default)]
@@ -202,6 +204,7 @@ fn read_cases(text: &str) -> Vec<Case> {
                     "subst" => Fault::Subst(a(0), a(1)),
                     "widen" => Fault::Widen(a(0)),
                     "addw" => Fault::AddW(a(0)),
+                    "swapsig" => Fault::SwapSig(a(0), a(1)),
                     other => panic!("bad fault {other}"),
                 };
                 cur.faults.push((k, fault));
@@ -284,6 +287,20 @@ impl Script {
         self.k += 1;
         self.sh.borrow_mut().log.push(format!("CALL {} {}", kind, inputs_s(inputs)));
         let fault = self.fault_at(k);
+        // every in-place exchange scheduled for this call (there may be several), in order
+        let swaps: Vec<(usize, usize)> = self
+            .faults
+            .iter()
+            .filter_map(|(kk, f)| match f {
+                Fault::SwapSig(i, j) if *kk == k => Some((*i, *j)),
+                _ => None,
+            })
+            .collect();
+        for (i, j) in swaps {
+            if i < self.n && j < self.n {
+                self.sigs.swap(i, j);
+            }
+        }
         if let Some(Fault::Err(code)) = fault {
             return Err(DrvError(code));
         }
